@@ -30,6 +30,19 @@ CHECKS = {
          "TLC replays the log on StagedStore.tla whose reads are defined as the same read on db-with-staged-ops-applied and compares every result, the db dump after Commit with the model and after RevertDiff with the previous contents.",
          "Keys over a 4-letter byte alphabet up to length 5, values empty or one byte; limit 0 not generated; operation sequences are sampled (seeded).",
          "TLA+ trace validation (TLC monitor) of recorded calls on the real staged store", "DESIGN.md section 4 C12"),
+ "C10": ("model_checking",
+         "SMT.tla defines the LIP-0039 root as a term Tree(M) of the map alone; TLC enumerates update/delete/reopen histories (exhaustively for depth 2-3 over 6 hand-placed 16-bit keys, "
+         "by simulation to depth 8-10 over 10 keys), checks the spec invariants and prints each history with the expected root term and query walks; the harness replays every history on the real trie "
+         "(raw 2-byte and 32/38-byte embedded keys, map store and pebble), compares roots after every batch, proves and verifies query sets, compares proof contents with the spec walk and "
+         "requires every tampered proof whose claim disagrees with the map (or with another root's map) to be rejected.",
+         "Hash injectivity; 16-bit key patterns embedded in longer keys; duplicate keys inside a batch not generated. One open known finding (forged query shadowed by another query of the same proof).",
+         "TLC-generated histories of a TLA+ term model replayed on the real trie (SHA-256 fold of the expected term)", "DESIGN.md section 4 C10"),
+ "C11": ("model_checking",
+         "RMT.tla: TLC checks the incremental append rule against the declarative LIP-0031 root/append path for every size 0..40 (140 thorough) and exports root/append-path terms; the harness compares "
+         "Append, CalculateRoot, reload, GenerateProof/VerifyProof (all non-empty leaf subsets of lists up to 7 (9) leaves + sampled subsets of larger lists, shuffled query order, reuse of a proof), "
+         "CalculateRootFromUpdateData, Update, right witnesses at every position and CalculateRootFromAppendPath with the folded terms, and requires tampered leaves/roots/witnesses to be rejected.",
+         "Hash injectivity; pairwise distinct leaf data.",
+         "TLC-checked TLA+ term model (incremental = batch = declarative) + comparison of the real tree with the exported terms", "DESIGN.md section 4 C11"),
 }
 NA_REASON = "check not built yet in this round (planned, see DESIGN.md section 4); not claimed until its TLA+ specification and binding exist"
 
